@@ -311,6 +311,92 @@ type verifC16Expect struct {
 	statusOnly  bool
 }
 
+// verifC16AssertStep: one request body against the object it is applied to
+// (`pre`): labels, annotations, status and finalizers each are either as in
+// `pre` or as expected at the end (key by key for the two maps); every other
+// field is as in `pre` (resourceVersion excepted: optimistic locking is the
+// server's business and a stale one is refused by it).
+func verifC16AssertStep(pre, body *unstructured.Unstructured, e verifC16Expect, pfx string) {
+	for k := range body.Object {
+		_, was := pre.Object[k]
+		rt.Assert(was || k == "status", pfx+"/top-level-field-added")
+	}
+	for k, v := range pre.Object {
+		if k == "metadata" || k == "status" {
+			continue
+		}
+		bv, has := body.Object[k]
+		rt.Assert(has, pfx+"/top-level-field-dropped:"+k)
+		if has {
+			gen.Equal(bv, v, pfx+"/field-changed:"+k)
+		}
+	}
+	// status: as before, or the response's
+	bs, hasBS := body.Object["status"]
+	ps, hadPS := pre.Object["status"]
+	asBefore := (hasBS == hadPS && (!hasBS || gen.Same(bs, ps))) || (!hadPS && hasBS && gen.IsNull(bs))
+	if e.statusNil {
+		rt.Assert(asBefore, pfx+"/status-changed-although-response-status-null")
+	} else if !asBefore {
+		rt.Assert(hasBS, pfx+"/status-dropped")
+		if hasBS {
+			gen.Equal(bs, map[string]interface{}(e.status), pfx+"/status-not-the-response-status")
+		}
+	}
+	// metadata
+	bmd, _ := body.Object["metadata"].(map[string]interface{})
+	omd, _ := pre.Object["metadata"].(map[string]interface{})
+	for k := range bmd {
+		_, was := omd[k]
+		rt.Assert(was || k == "labels" || k == "annotations" || k == "finalizers", pfx+"/metadata-field-added:"+k)
+	}
+	for k, v := range omd {
+		switch k {
+		case "labels", "annotations", "finalizers", "resourceVersion":
+			continue
+		}
+		bv, has := bmd[k]
+		rt.Assert(has, pfx+"/metadata-field-dropped:"+k)
+		if has {
+			gen.Equal(bv, v, pfx+"/metadata-field-changed:"+k)
+		}
+	}
+	stepMap := func(field string, want map[string]string, label string) {
+		got, was := verifC16StringMapOf(body, field), verifC16StringMapOf(pre, field)
+		keys := map[string]bool{}
+		for k := range got {
+			keys[k] = true
+		}
+		for k := range was {
+			keys[k] = true
+		}
+		for k := range want {
+			keys[k] = true
+		}
+		for k := range keys {
+			g, hasG := got[k]
+			p, hasP := was[k]
+			x, hasX := want[k]
+			rt.Assert((hasG == hasP && (!hasG || g == p)) || (hasG == hasX && (!hasG || g == x)), label)
+		}
+	}
+	stepMap("labels", e.labels, pfx+"/labels-not-as-named-by-response")
+	stepMap("annotations", e.annotations, pfx+"/annotations-not-as-named-by-response")
+	same := func(a, b []string) bool {
+		if len(a) != len(b) {
+			return false
+		}
+		for i := range a {
+			if a[i] != b[i] {
+				return false
+			}
+		}
+		return true
+	}
+	fins := body.GetFinalizers()
+	rt.Assert(same(fins, pre.GetFinalizers()) || same(fins, e.finalizers), pfx+"/finalizers")
+}
+
 // verifC16AssertBody: a body sent for the target differs from the cached
 // target only in labels, annotations, status, finalizers (to the expected
 // values) and resourceVersion (checked by the caller).
@@ -548,46 +634,33 @@ func VerifC16_SyncTarget() {
 	if removeFinalizer {
 		rt.Cover("sync/finalizer-removed")
 	}
-	// What has to be sent: a status request when the status differs and the
-	// resource has the subresource; a regular update when anything else differs
-	// (or the status differs and there is no subresource). A regular update
-	// after a status-only change has no effect and may be sent or left out.
-	metaDiffers := labelsDiffer || annDiffer || removeFinalizer
+	// The property fixes WHAT may change on the target and that nothing is sent
+	// when nothing would change; it does not fix how the changes are spread over
+	// requests (status endpoint first or last, labels and the finalizer in one
+	// update or in two, the finalizer removed from a fresh read). So every
+	// accepted request is checked as a STEP: against the object it was applied
+	// to, it may move labels, annotations, status and the own finalizer towards
+	// the expected final values and must leave everything else alone; the sum
+	// of the steps is checked on the stored target below.
 	if statusDiffers && hasSub {
 		rt.Cover("sync/status-subresource-then-update")
-		rt.Assert(len(wr) == 2 || (len(wr) == 1 && !metaDiffers), "sync/expected-updatestatus-then-update")
-		if len(wr) != 2 && !(len(wr) == 1 && !metaDiffers) {
-			return
-		}
-		st := wr[0]
-		rt.Assert(st.Sub == "status", "sync/first-request-not-updatestatus")
-		// the status request is built from the cached target, own finalizer still on it
-		es := e
-		es.finalizers = finalizers
-		verifC16AssertBody(st.Body, es, "sync/status-body")
-		rt.Assert(st.Body.GetResourceVersion() == before.GetResourceVersion(), "sync/status-body-resourceVersion")
-		if len(wr) == 2 {
-			main := wr[1]
-			rt.Assert(main.Sub == "", "sync/second-request-not-update")
-			rt.Assert(main.Pre != nil, "sync/target-vanished")
-			if main.Pre != nil {
-				rt.Assert(main.Pre.GetResourceVersion() != before.GetResourceVersion(), "sync/env-did-not-bump-resourceVersion")
-				rt.Assert(main.Body.GetResourceVersion() == main.Pre.GetResourceVersion(), "sync/update-does-not-carry-resourceVersion-of-updatestatus")
+		viaStatus := false
+		for _, r := range wr {
+			if r.Sub == "status" {
+				viaStatus = true
 			}
-			verifC16AssertBody(main.Body, e, "sync/update-body")
 		}
-	} else {
-		if statusDiffers {
-			rt.Cover("sync/status-without-subresource")
+		rt.Assert(viaStatus, "sync/status-change-not-sent-to-the-status-endpoint")
+	} else if statusDiffers {
+		rt.Cover("sync/status-without-subresource")
+	}
+	for _, r := range wr {
+		rt.Assert(r.Sub == "" || r.Sub == "status", "sync/unexpected-subresource")
+		if r.Pre == nil || r.Body == nil {
+			rt.Assert(false, "sync/target-vanished")
+			continue
 		}
-		rt.Assert(len(wr) == 1, "sync/expected-exactly-one-update")
-		if len(wr) != 1 {
-			return
-		}
-		main := wr[0]
-		rt.Assert(main.Sub == "", "sync/updatestatus-without-status-change-or-subresource")
-		rt.Assert(main.Body.GetResourceVersion() == before.GetResourceVersion(), "sync/update-body-resourceVersion")
-		verifC16AssertBody(main.Body, e, "sync/update-body")
+		verifC16AssertStep(r.Pre, r.Body, e, "sync/request-body")
 	}
 
 	// ---- the stored target afterwards ----
